@@ -79,6 +79,19 @@ def sg_coherence(prog: Program) -> RuleResult:
             f"instances survive and, because node indices / ids are recycled, are taken for facts about new instances",
             insertion_sites=[f"{f.short}:{src(n)[:80]}" for f, n, _ in sites],
         )
+    # who may take a node out of the instance graph: only the removal path that purges all of the above.  A second place that removes
+    # a node (a shortcut for a recycled id, say) leaves whatever it forgets to purge behind.
+    graph_fields = [n for n, fi in prog.fields(sg.qual).items() if fi.annotation is not None and "PyDiGraph" in fi.ann_text]
+    for name, g in sorted(sg.methods.items()):
+        for c in calls_in(g.node):
+            if isinstance(c.func, ast.Attribute) and c.func.attr in ("remove_node", "remove_nodes_from") and is_self_attr(c.func.value) and c.func.value.attr in graph_fields:
+                inside = g in rm_funcs
+                purged_here = {fl for (fl, kind, f_, n_, k_) in effects(prog, sg, {g}) if kind == "del"}
+                missing = sorted(set(written) - purged_here - set(graph_fields)) if not inside else []
+                r.check(inside or not missing, f"SymbolGraph.{name}#removes-through-the-purging-path", site(g, c), src(c),
+                        "nodes leave the graph on the purging path only",
+                        f"{name} removes a node from the instance graph itself and does not purge {missing}: what the node left there (relation pairs keyed by its recycled index) "
+                        f"makes a later relation between new instances look already known")
     return r
 
 
